@@ -19,7 +19,10 @@ import Golib.Conf.FSLemmas
 import Golib.Conf.Locks
 import Golib.Conf.WriteExtras
 import Golib.Conf.SpacedLines
-import Golib.Conf.Observers
+import Golib.Conf.ObsHist
+import Golib.Conf.FSDurLemmas
+import Golib.Conf.KeyIff
+import Golib.Conf.LiftLines
 
 namespace C18
 open Conf
@@ -47,6 +50,30 @@ theorem getter_parsed {α : Type} (parse : Str → Option α) (m env : KV) (k : 
     | nil => exact absurd hv hne
     | cons _ _ => rfl
   simp [getParsed, he, h]
+
+/-- getFloat has the same decision structure (strconv.ParseFloat(·, 32) is the parameter; the
+    harness plugs in strconv itself): absent/empty → default, unparsable → default, else the value -/
+theorem getFloat_decision {F : Type} (pf : Str → Option F) (m env : KV) (k : Str) (d : F) :
+    (getValue m env k = [] → getFloat pf m env k d = d) ∧
+    (pf (getValue m env k) = none → getFloat pf m env k d = d) ∧
+    (∀ a, getValue m env k ≠ [] → pf (getValue m env k) = some a → getFloat pf m env k d = a) :=
+  ⟨getter_default_absent pf m env k d, getter_default_malformed pf m env k d,
+   fun a hne h => getter_parsed pf m env k d a hne h⟩
+
+example : getFloat (fun s => if s = "1.5".toList then some (3 : Nat) else none)
+    [("k".toList, " 1.5 ".toList)] [] "k".toList 0 = 3 := by decide
+
+/-- the hash-set getters hash every trimmed token of the value (or of the default), in order,
+    whatever the hash function -/
+theorem hashset_spec (hash : Str → Int) (m env : KV) (k d deli : Str) :
+    getHashSet hash m env k d deli =
+      (tokenizer (getValueDef m env k d) deli).map (fun x => hash (trimSpace x)) ∧
+    (getHashSet hash m env k d deli).length = (tokenizer (getValueDef m env k d) deli).length := by
+  simp [getHashSet, hashTokens]
+
+example : hashTokens [("k".toList, "a, b ,,c".toList)] [] "k".toList [] ",".toList
+    = ["a".toList, "b".toList, "c".toList] := by decide
+example : hashTokens [] [] "k".toList [] ",".toList = [[]] := by decide      -- Tokenizer("") = [""]
 
 /-- a key present in the map shadows the environment and is trimmed; an absent key falls back
     to the environment -/
@@ -128,6 +155,31 @@ example :
     let o := ((Obs.empty.add ['a'] 1).run.add ['b'] 2).run.add ['a'] 3 |>.run
     (o.count 1, o.count 2, o.count 3) = (2, 2, 1) := by decide
 
+/-- observers over arbitrary histories of registrations, replacements and rounds, including a
+    registration made from inside a callback (`runReg`, with the unspecified "visited in that
+    very round" flag): every target is called exactly once per round at which it is registered -/
+theorem observers_history (ops : List ObsOp) (id : Nat) :
+    (Obs.empty.exec ops).count id = callsSpec [] ops id := by
+  have := exec_count Obs.empty ops id wf_empty
+  simpa [Obs.count, Obs.empty] using this
+
+/-- the tolerance of the harness, stated: a target registered from inside a callback is called 0
+    or 1 times in the round of its registration (the flag) and exactly once in every later round
+    while it stays registered -/
+theorem reentrant_registration (o : Obs) (n : Str) (i : Nat) (v : Bool) (ops : List ObsOp) (h : o.WF)
+    (hfresh : o.registered i = false) :
+    ((o.step (.runReg n i v)).exec ops).count i =
+      o.count i + (if v then 1 else 0) + callsSpec (regPut o.reg n i) ops i := by
+  have := exec_count o (.runReg n i v :: ops) i h
+  simp only [Obs.exec, List.foldl_cons, callsSpec] at this ⊢
+  rw [this]
+  have hr : regHas o.reg i = false := hfresh
+  simp [hr]; omega
+
+example :
+    (Obs.empty.exec [.add ['p'] 1, .runReg ['c'] 2 false, .run, .add ['c'] 3, .run]).counts
+      = [(1, 3), (2, 1), (3, 1)] := by decide
+
 /-- for all histories of external edits, deletions and reloads: once the file stops changing
     (state `f`), one more reload makes every key=value of it visible.
     Assumptions about the world, not about the code: two states of the file that reload cannot
@@ -144,6 +196,23 @@ example :
     lookup (runH verFull (Cfg.init, none)
       [.edit ⟨1700000000100000000, ['k', '=', '2', '\n']⟩, .reload,
        .edit ⟨1700000000400000000, ['k', '=', '3', '\n']⟩, .reload]).1.m ['k'] = some ['3'] := by decide
+
+/-- the version stamp reload compares is exactly (mtime in ns, size in bytes) -/
+theorem version_stamp (f : FileSt) : verFull f = (f.mtimeNs, (utf8Len f.text : Int)) := rfl
+
+/-- known finding `reload:same-stamp-edit` (the residue of D37 on file systems with coarse
+    timestamps, and of `cp -p`/restore with an identical mtime): an edit that changes neither the
+    size nor the mtime violates `VerInj` and is never loaded — no stat-based watcher can see it -/
+theorem finding_same_stamp :
+    let f1 : FileSt := ⟨1700000000000000000, ['k', '=', '2', '\n']⟩
+    let f2 : FileSt := ⟨1700000000000000000, ['k', '=', '3', '\n']⟩
+    verFull f1 = verFull f2 ∧ ¬ VerInj verFull [f1, f2] ∧
+    lookup (runH verFull (Cfg.init, none) [.edit f1, .reload, .edit f2, .reload]).1.m ['k'] = some ['2'] := by
+  refine ⟨by decide, ?_, by decide⟩
+  intro h
+  have := h ⟨1700000000000000000, ['k', '=', '2', '\n']⟩ (by simp)
+    ⟨1700000000000000000, ['k', '=', '3', '\n']⟩ (by simp) (by decide)
+  revert this; decide
 
 /-- D37: the unchanged code compares whole seconds — the same history leaves the first value -/
 theorem finding_D37 :
@@ -224,6 +293,80 @@ theorem setvalues_merge_partial (pre suf : Str) (excl : List Str) (infos : List 
                visible (setAll (buildProps (pairsOf infos)) tmp) key :=
   setValues_merge pre suf excl infos kvs hwf hkv
 
+/-- **The grammar**: every key (non-empty) and every value — any characters — is expressible: the
+    canonical rendering (escapes `\ `, `\:`, `\=`, `\\`, `\#`, `\!`, `\t`, `\n`, `\r`, `\f`) is read back
+    exactly, line by line and for whole files: parse ∘ render = id -/
+theorem parse_render_roundtrip (pairs : KV) (h : ∀ p ∈ pairs, p.1 ≠ []) :
+    lexPairs (renderFileFull pairs) = some pairs := lexPairs_renderFileFull pairs h
+
+example : lexPairs (renderFileFull [(['a', ' ', '='], ['\t', 'x', '\n', '\\']), (['#'], [])])
+    = some [(['a', ' ', '='], ['\t', 'x', '\n', '\\']), (['#'], [])] := by decide
+
+/-- **Which values survive a write-back** (complete characterisation behind the known finding
+    `writeback:value-escape`): the line Write renders for (k, v) is read back as exactly (k, v)
+    iff v has no line break, no two adjacent backslashes and no leading blank; in general what
+    comes back (up to the first line break) is `collapseBs (dropWhile blank v)` -/
+theorem value_preserved_iff (k v : Str) (hk : WFkey k) :
+    lexPairs (renderKV k v ++ ['\n']) = some [(k, v)] ↔ ValuePreserved v :=
+  Conf.value_preserved_iff k v hk
+
+theorem value_read_back_as (k v : Str) (out : KV) (hk : WFkey k) (hv : ∀ c ∈ v, isEOL c = false) :
+    lexRun ⟨.bk, out⟩ (renderKV k v ++ ['\n']) = ⟨.bk, (k, collapseBs (v.dropWhile isWs)) :: out⟩ :=
+  value_readback k v '\n' out hk (by decide) hv
+
+/-- `WFval` of the write-back theorem is exactly "preserved and not blank" -/
+theorem wfval_iff (v : Str) : WFval v ↔ ValuePreserved v ∧ isBlankVal v = false := by
+  constructor
+  · intro ⟨h1, h2, h3, h4⟩
+    exact ⟨⟨h2, h3, Or.inr h4⟩, h1⟩
+  · intro ⟨⟨h2, h3, h4⟩, h1⟩
+    refine ⟨h1, h2, h3, ?_⟩
+    rcases h4 with h4 | h4
+    · subst h4; simp [isBlankVal, trimSpace, trimBy, trimRightBy, trimLeftBy] at h1
+    · exact h4
+
+/-- **Which keys survive a write-back** (behind `writeback:key-escape`): keys are written
+    unescaped and only when they start with `[0-9A-Za-z_]` (`appendedLines`); a key without a
+    backslash is read back from its line iff none of its characters ends a key, otherwise the item
+    comes back under the strictly shorter prefix before the first such character.  (Keys containing
+    a backslash: not preserved either — witness `finding_key_escape` —; no iff is proved for them.) -/
+theorem key_preserved_iff (k v : Str) (hw : isWordStart k = true) (hbs : ∀ c ∈ k, c ≠ '\\') (hv : WFval v) :
+    lexPairs (renderKV k v ++ ['\n']) = some [(k, v)] ↔ ∀ c ∈ k, plainKeyChar c = true :=
+  Conf.key_preserved_iff k v hw hbs hv
+
+theorem key_cut_at_separator (a rest : Str) (e : Char) (l : KV) (ha : WFkey a) (he : isEndOfKey e = true)
+    (h : lexPairs (a ++ e :: rest) = some l) : ∃ v tl, l = (a, v) :: tl :=
+  key_cut_short a rest e l ha he h
+
+example : lexPairs (renderKV ['d', ' ', 'e'] ['5'] ++ ['\n']) = some [(['d'], ['e', '=', '5'])] := by decide
+
+/-- the well-formed class contains the full value grammar: any spelling of the value that the
+    lexer reads as a preserved value (escapes, blanks around '='), empty values, comments starting
+    with '#' or '!' after blanks -/
+theorem wellformed_lines_full (k pv cs w : Str) (c : Char) (a b : Nat) (hk : WFkey k)
+    (hpv : pv = [] ∨ WFval pv) (hw : ∀ x ∈ w, isWs x = true) (hc : isCommentStart c = true) (hcs : NoBreak cs) :
+    KVLine (k ++ blanks a ++ '=' :: (blanks b ++ renderValFull pv)) k pv ∧
+    KVLine (k ++ blanks a ++ '=' :: blanks b) k [] ∧
+    SkipLine (w ++ c :: cs) :=
+  ⟨kvline_full_spelling k pv a b hk hpv, empty_value_kvline k a b hk, comment_skipline w cs c hw hc hcs⟩
+
+/-- a hand-written line with `\t` and `\u00e9` escapes in the value is in the class -/
+example : KVLine ['k', ' ', '=', ' ', 'a', '\\', 't', 'b', '\\', 'u', '0', '0', 'e', '9'] ['k'] ['a', '\t', 'b', 'é'] := by
+  have := kvline_of_raw ['k'] [' ', 'a', '\\', 't', 'b', '\\', 'u', '0', '0', 'e', '9'] ['a', '\t', 'b', 'é'] 1
+    ⟨by decide, by decide⟩ (Or.inr ⟨by decide, by decide, by simp [NoAdjBs], by decide⟩)
+    (by unfold NoBreak; decide) (fun out => rfl)
+  simpa [blanks] using this
+
+/-- known finding `writeback:line-shape`: a key=value line without '=' (':' or blank separator)
+    is copied as it is and its key appended again; assigning works (the later line wins) but
+    deleting the key does not, and every write-back adds another copy -/
+theorem finding_line_shape :
+    let text : Str := ['k', ':', ' ', 'v', '\n']
+    (writeModel true text [(['k'], [])]).map (·.text) = some text ∧
+    (writeModel true text [(['k'], ['w'])]).map (·.text) = some ['k', ':', ' ', 'v', '\n', 'k', '=', 'w', '\n'] ∧
+    (writeModel true ['k', ':', ' ', 'v', '\n', 'k', '=', 'w', '\n'] []).map (·.text)
+      = some ['k', ':', ' ', 'v', '\n', 'k', '=', 'w', '\n'] := by decide
+
 /-- non-vacuity of the hypotheses: a comment containing '=' twice, a blank line and a rendered
     key=value line are well-formed lines -/
 example : WFprops [(['#', 'x', '=', '1', '=', '2'], none), ([], none),
@@ -289,6 +432,26 @@ theorem crash_atomic (old new : Str) :
     (∀ s ∈ crashStates new atomicSeq ⟨some old, none⟩, visibleOK old new s) ∧
     (atomicSeq.foldl (execKind new) ⟨some old, none⟩).target = some new :=
   ⟨atomicSeq_visible old new none, atomicSeq_final old new none⟩
+
+/-- **Power loss** (durability model: volatile/durable content per inode, volatile/durable
+    directory entry; un-synced data and an un-synced rename may or may not survive): with the
+    code's sequence [close, createTemp, chmod, write, sync, close, rename] the configuration path
+    holds the complete old or the complete new content whatever survives, at every point; once
+    the sequence has run every process sees the new content.  The fsync is what makes this true:
+    without it the file can come back empty (`noSyncSeq`). -/
+theorem crash_atomic_durable (old new : Str) :
+    (∀ s ∈ dstates new atomicSeq (DFS.init old), ∀ c ∈ outcomes s, c = old ∨ c = new) ∧
+    (let s := atomicSeq.foldl (dexec new) (DFS.init old)
+     (s.ino s.dirVol).vol = new ∧ ∀ c ∈ outcomes s, c = old ∨ c = new) :=
+  ⟨atomicSeq_durable old new, atomicSeq_final_durable old new⟩
+
+theorem finding_rename_without_sync (old new : Str) (hn : new ≠ []) :
+    ∃ s ∈ dstates new noSyncSeq (DFS.init old), ([] : Str) ∈ outcomes s := noSyncSeq_can_lose old new hn
+
+theorem finding_D39_trunc_durable (old new : Str) :
+    ∃ s ∈ dstates new truncSeq (DFS.init old), ([] : Str) ∈ outcomes s := truncSeq_can_lose old new
+
+example : ((dstates ['b'] atomicSeq (DFS.init ['a'])).flatMap outcomes).eraseDups = [['a'], ['b']] := by decide
 
 /-- D39 (first half): open with O_TRUNC, then write — there is a stop point at which the file
     is empty, and one for every proper prefix of the new content -/
